@@ -10,6 +10,8 @@ from pathlib import Path
 
 SEEDED = Path("/verif/seeded")
 NEEDS = {
+    "C07-h": "DiameterMerge no longer computes the iSIM and compares it with the threshold; a new helper _jt_isim_reaches tests numerator >= threshold * denominator to 'skip the division'. The two forms only disagree through floating-point rounding when the would-be cluster's iSIM is exactly equal to a threshold whose double is slightly above the decimal (e.g. threshold=0.55 with numerator/denominator 55/100, 99/180, 110/200: 0.55*100 == 55.00000000000001), so a merge that the reference and the legacy uint8/int64 code accept is refused; no effect for 0.65 and the other common thresholds or for non-boundary iSIM values.",
+    "C02-g": "bblean/fingerprints.py:_get_fingerprints_from_file_seq now materialises its `files` argument with `files = sorted(files)` (it is iterated twice, so a list is needed; sorting 'normalises' the order the comment says is assumed), while member labels are still assigned in the order the caller fitted / passed the files. It only shows when the largest cluster is split from a LIST of fingerprint files (BitBirch.refine_inplace([paths]), `bb run` refinement, or multiround with split_largest_after_each_midsection_round / refinement via all_fp_paths) AND the caller's file order is not the lexicographic order of the names (e.g. fps-0.npy..fps-11.npy in numeric order, no zero padding): the split singletons then carry the right labels but rows of other files, so counts stay right (all internal checks pass) while stored sums and centroids no longer match the members.",
     "C20-g": "The monitor's peak-file update was factored into a helper that stages the new value with tempfile.mkstemp in the system temp dir (to keep '*.tmp' files out of the outputs) and publishes it with shutil.move instead of a same-directory os.replace. When the output dir is on the same filesystem as the temp dir this is still an atomic rename, but when it is on a different filesystem (e.g. out dir on /dev/shm, scratch or NFS while /tmp is local) shutil.move silently degrades to copy: max-rss.txt is opened with 'wb' (truncated) and filled afterwards, so a reader that falls between that open and the copy gets ValueError from float('').",
     "C19-g": "The .npy header reader behind _get_fps_file_shape_and_dtype is memoized per path (functools.lru_cache), so _FingerprintFileSequence maps global member indices to files using stale row counts. It only shows when, within one process, a file sequence has been read once (e.g. by an earlier cluster_analysis) and the part files are then rewritten at the same paths with different per-file row counts (re-batched or regenerated fingerprints) and analysed again: the file-sequence provider then fetches the wrong rows (wrong iSIM, silently) or raises IndexError, while the array and single-file providers stay correct.",
     "C17-g": "BitBirch.set_merge was 'simplified' so that the keep-the-previously-chosen-tolerance rule is applied in one place after the criterion has been resolved (build the named criterion with its default tolerance, then write the explicit-or-previous tolerance onto whatever accept function is now installed); this is equivalent for names and for tolerance-only calls, but it also overwrites the tolerance of a merge-function OBJECT passed as the criterion. It only shows when the estimator's CURRENT criterion carries a tolerance (tolerance-diameter / tolerance-radius / tolerance-legacy / never-merge, not the default diameter or radius) and set_merge is then given a tolerance-bearing merge-function object with a different tolerance: the estimator (and the caller's object) silently take the old tolerance, so set_merge(obj) and BitBirch(merge_criterion=obj) disagree in reported tolerance and in clustering.",
